@@ -17,6 +17,11 @@ only resolves bare names and np./math. attributes and returns None for anything 
 `gauss` with arity 8.  Every other unresolved callee in make_model has a different arity or
 keyword arguments and stays untranslatable (its target becomes an input), as intended.
 
+Each of xoff, yoff, modelVal is its own target, so that one of them leaving the whitelist (e.g. the half-widths
+moved into a helper function, which the translator does not inline) is reported UNTRANSLATABLE and replaced by
+its hand definition alone; the property proofs unfold the hand definitions too, so they still compile on that
+fallback and the correspondence (frac = 0 masks show the window exactly) ties that piece.
+
 floor / ceil / clip / the skip rule / mask thresholds involve `max`, `min`, comparisons and
 indexing: outside real mode; they are hand-modelled in Aegean/Model/C14.lean and tied by
 harness/corr_C14.py.
@@ -24,19 +29,48 @@ harness/corr_C14.py.
 _H = 'Aegean.Model.C14'
 _G = ['x', 'y', 'amp', 'xo', 'yo', 'sx', 'sy', 'theta']
 
+
+def _gauss_result_name():
+    """The local name that make_model binds to the `…elliptical_gaussian(…)` call (`model` on the pinned tree).
+    Looked up in the tree under test ($AEGEAN_REPO, default /repo — the same rule as harness/common.py) so that
+    renaming that local does not look like a change of meaning.  Exactly one such assignment must exist, otherwise
+    the pinned name is kept and the target is reported UNTRANSLATABLE (hand definition + correspondence)."""
+    import ast
+    import os
+    try:
+        src = open(os.path.join(os.environ.get('AEGEAN_REPO', '/repo'), 'AegeanTools', 'AeRes.py')).read()
+        fn = [n for n in ast.walk(ast.parse(src)) if isinstance(n, ast.FunctionDef) and n.name == 'make_model'][0]
+        names = []
+        for n in ast.walk(fn):
+            if isinstance(n, ast.Assign) and len(n.targets) == 1 and isinstance(n.targets[0], ast.Name) \
+                    and isinstance(n.value, ast.Call):
+                f = n.value.func
+                callee = f.attr if isinstance(f, ast.Attribute) else getattr(f, 'id', None)
+                if callee == 'elliptical_gaussian':
+                    names.append(n.targets[0].id)
+        return names[0] if len(names) == 1 else 'model'
+    except Exception:
+        return 'model'
+
+
+def _mm(pyvar, lean, fallback):
+    """one output of make_model per target: a piece that leaves the whitelist falls back alone"""
+    return dict(file='AegeanTools/AeRes.py', func='make_model', mode='real',
+                params={'FWHM2CC': 'A', 'peak': 'A'},
+                subst={'src.peak_flux': 'peak'},
+                calls={None: ('gauss', 8), 'elliptical_gaussian': ('gauss', 8)},
+                outputs=[(pyvar, lean)], fallback={lean: fallback})
+
+
 TARGETS = [
     dict(file='AegeanTools/fitting.py', func='elliptical_gaussian', mode='real',
          params={p: 'A' for p in _G}, subst={}, outputs=[], returns='gauss',
          fallback={'gauss': 'def gauss {α : Type} [R α] (x y amp xo yo sx sy theta : α) : α := '
                             f'{_H}.gaussHand x y amp xo yo sx sy theta'},
          all_params=_G),
-    dict(file='AegeanTools/AeRes.py', func='make_model', mode='real',
-         params={'FWHM2CC': 'A', 'peak': 'A'},
-         subst={'src.peak_flux': 'peak'},
-         calls={None: ('gauss', 8), 'elliptical_gaussian': ('gauss', 8)},
-         outputs=[('xoff', 'xoff'), ('yoff', 'yoff'), ('model', 'modelVal')],
-         fallback={'xoff': f'def xoff {{α : Type}} [R α] (sx sy theta : α) : α := {_H}.xoffHand sx sy theta',
-                   'yoff': f'def yoff {{α : Type}} [R α] (sx sy theta : α) : α := {_H}.yoffHand sx sy theta',
-                   'modelVal': 'def modelVal {α : Type} [R α] (FWHM2CC peak xo yo sx sy theta x y : α) : α := '
-                               f'{_H}.modelValHand FWHM2CC peak xo yo sx sy theta x y'}),
+    _mm('xoff', 'xoff', f'def xoff {{α : Type}} [R α] (sx sy theta : α) : α := {_H}.xoffHand sx sy theta'),
+    _mm('yoff', 'yoff', f'def yoff {{α : Type}} [R α] (sx sy theta : α) : α := {_H}.yoffHand sx sy theta'),
+    _mm(_gauss_result_name(), 'modelVal',
+        'def modelVal {α : Type} [R α] (FWHM2CC peak xo yo sx sy theta x y : α) : α := '
+        f'{_H}.modelValHand FWHM2CC peak xo yo sx sy theta x y'),
 ]
